@@ -49,51 +49,61 @@ def run_case(darsia, rng, tid, cfg, nextra, rgb, dtype, shape, probe_is_base):
         return darsia.ScalarImage(a, **kw)
 
     base_a = arr()
-    probe_a = base_a.copy() if probe_is_base else arr()
     extras_a = [arr() for _ in range(nextra)]
-    e = {"tid": tid, "op": "run", "cfg": cfg, "rgb": int(rgb), "dtype": dtype, "raised": 0, "nextra": nextra}
-    try:
-        with warnings.catch_warnings():
-            warnings.simplefilter("ignore")
-            ca = darsia.ConcentrationAnalysis(
-                base=[image(base_a)] + [image(x) for x in extras_a],
-                signal_reduction=red if cfg["red"] else None,
-                balancing=bal if cfg["bal"] else None,
-                restoration=res if cfg["res"] else None,
-                model=mod if cfg["mod"] else None,
-                **{"diff option": cfg["diff"], "restoration -> model": bool(cfg["order"])},
-            )
-            probe = image(probe_a)
-            before = (probe.img.copy(), probe.metadata())
-            recording["on"] = True
-            out = ca(probe)
-            recording["on"] = False
-        res_arr = np.asarray(out.img, dtype=float) * scale
-        k = np.round(res_arr)
-        okq = np.abs(res_arr - k) <= 1e-6 * (1 + np.abs(k))
-        k = k.astype(np.int64)
-        k[~okq] = BAD
-        nch = 1 if k.ndim == 2 else k.shape[-1]
-        P = probe_a.reshape(-1, 3 if rgb else 1).astype(int)
-        B = base_a.reshape(-1, 3 if rgb else 1).astype(int)
-        X = [x.reshape(-1, 3 if rgb else 1).astype(int) for x in extras_a]
-        e["probe"] = P.tolist()
-        e["base"] = B.tolist()
-        e["extras"] = [[x[i].tolist() for x in X] for i in range(len(P))]
-        e["result"] = k.reshape(-1, nch).tolist()
-        e["calls"] = calls
-        after_meta = probe.metadata()
-        e["probe_unchanged"] = int(np.array_equal(before[0], probe.img) and probe.img.dtype == np.dtype(dtype)
-                                   and all(np.array_equal(np.asarray(before[1][k_]), np.asarray(after_meta[k_])) if k_ in ("origin", "dimensions") else before[1][k_] == after_meta[k_] for k_ in before[1]))
-        om = out.metadata()
-        e["meta_equal"] = int(np.allclose(om["dimensions"], before[1]["dimensions"]) and np.allclose(om["origin"], before[1]["origin"])
-                              and om["space_dim"] == 2 and om["name"] == before[1]["name"] and out.img.shape[:2] == tuple(shape))
-        e["scalar_result"] = int(bool(out.scalar))
-        e["probe_scalar"] = int(not rgb)
-    except Exception as ex:  # noqa
-        e["raised"] = 1
-        e["error"] = repr(ex)[:200]
-    return e
+    # ONE analysis object serves several probes one after the other (that is how it is used on an image series): every
+    # call is judged on its own; the last probe is the baseline itself
+    probes = [base_a.copy() if probe_is_base else arr(), arr(), base_a.copy()]
+    evs = []
+    ca = None
+    for j, probe_a in enumerate(probes):
+        e = {"tid": f"{tid}:{j}", "op": "run", "cfg": cfg, "rgb": int(rgb), "dtype": dtype, "raised": 0, "nextra": nextra, "call": j}
+        evs.append(e)
+        del calls[:]
+        try:
+            with warnings.catch_warnings():
+                warnings.simplefilter("ignore")
+                if ca is None:
+                    ca = darsia.ConcentrationAnalysis(
+                        base=[image(base_a)] + [image(x) for x in extras_a],
+                        signal_reduction=red if cfg["red"] else None,
+                        balancing=bal if cfg["bal"] else None,
+                        restoration=res if cfg["res"] else None,
+                        model=mod if cfg["mod"] else None,
+                        **{"diff option": cfg["diff"], "restoration -> model": bool(cfg["order"])},
+                    )
+                probe = image(probe_a)
+                before = (probe.img.copy(), probe.metadata())
+                recording["on"] = True
+                try:
+                    out = ca(probe)
+                finally:
+                    recording["on"] = False
+            res_arr = np.asarray(out.img, dtype=float) * scale
+            k = np.round(res_arr)
+            okq = np.abs(res_arr - k) <= 1e-6 * (1 + np.abs(k))
+            k = k.astype(np.int64)
+            k[~okq] = BAD
+            nch = 1 if k.ndim == 2 else k.shape[-1]
+            P = probe_a.reshape(-1, 3 if rgb else 1).astype(int)
+            B = base_a.reshape(-1, 3 if rgb else 1).astype(int)
+            X = [x.reshape(-1, 3 if rgb else 1).astype(int) for x in extras_a]
+            e["probe"] = P.tolist()
+            e["base"] = B.tolist()
+            e["extras"] = [[x[i].tolist() for x in X] for i in range(len(P))]
+            e["result"] = k.reshape(-1, nch).tolist()
+            e["calls"] = list(calls)
+            after_meta = probe.metadata()
+            e["probe_unchanged"] = int(np.array_equal(before[0], probe.img) and probe.img.dtype == np.dtype(dtype)
+                                       and all(np.array_equal(np.asarray(before[1][k_]), np.asarray(after_meta[k_])) if k_ in ("origin", "dimensions") else before[1][k_] == after_meta[k_] for k_ in before[1]))
+            om = out.metadata()
+            e["meta_equal"] = int(np.allclose(om["dimensions"], before[1]["dimensions"]) and np.allclose(om["origin"], before[1]["origin"])
+                                  and om["space_dim"] == 2 and om["name"] == before[1]["name"] and out.img.shape[:2] == tuple(shape))
+            e["scalar_result"] = int(bool(out.scalar))
+            e["probe_scalar"] = int(not rgb)
+        except Exception as ex:  # noqa
+            e["raised"] = 1
+            e["error"] = repr(ex)[:200]
+    return evs
 
 
 def run(ck, replay=None):
@@ -116,8 +126,10 @@ def run(ck, replay=None):
     events, info = [], {}
     for i, c in enumerate(cases):
         tid = f"r{i}"
-        info[tid] = c
-        events.append(run_case(darsia, rng, tid, c[0], c[1], c[2], c[3], c[4], c[5]))
+        evs = run_case(darsia, rng, tid, c[0], c[1], c[2], c[3], c[4], c[5])
+        for e in evs:
+            info[e["tid"]] = c
+        events += evs
     bad = ck.validate("Trace_ConcPipeline", "Trace.cfg", events, chunk=200)
     for b in bad:
         c = info[b["tid"]]
